@@ -430,7 +430,7 @@ register("C07", generated=["Shared"], streams=[Q("all", apis=["find_matches", "f
          observables=["calls", "results_exc", "segments"], oracles=[oracles.interleave_oracle, oracles.thread_oracle, oracles.reiter_oracle, oracles.long_iteration_oracle, oracles.fatigue_oracle],
          rule="iterators advanced k times (k below, at, beyond the number of results; extra next() calls after exhaustion); per-call segments of results and user-predicate calls compared with the machine model; interleavings of 2-5 iterators sharing path objects; real threads as support")
 register("C11", streams=[Q("nopar", apis=["find_matches"], src=None)],
-         observables=["full_results"], oracles=[oracles.match_truth_oracle, oracles.match_eq_oracle, oracles.eq_after_change_oracle, oracles.live_edit_oracle],
+         observables=["full_results"], oracles=[oracles.match_truth_oracle, oracles.match_eq_oracle, oracles.eq_after_change_oracle, oracles.eq_across_documents_oracle, oracles.live_edit_oracle],
          rule="parent-free paths; every Match observable (path_as_str, data_name, data, path_match_list names, parent) compared; round trip through Match.path, duplicate-freedom and == on random pairs as python-side oracles")
 register("C12", streams=[Q("all", apis=ALL_APIS, src=True, untraced=0.4, share=3), Q("parent", apis=ALL_APIS, src=True, untraced=0.4, share=1),
                          Q("nopar", apis=ALL_APIS, src=True, untraced=0.4, share=1, up=1.0),
